@@ -244,12 +244,23 @@ fn cmd_check(args: &[String]) -> i32 {
         if gi >= 40 {
             continue; // enough replay files; the count is still reported
         }
-        let f = &fs[0];
         let exe = std::env::current_exe().unwrap();
         let confirm = |path: &std::path::Path| -> bool {
             let out = std::process::Command::new(&exe).arg("replay").arg(path).output();
             out.as_ref().map(|o| o.status.code() == Some(1)).unwrap_or(false)
         };
+        // among the recorded instances of this violation class prefer one whose own world
+        // reproduces in a fresh process (an instance may instead depend on state the library kept
+        // from other worlds, runs or threads)
+        let mut pick = 0;
+        for (ci, cand) in fs.iter().take(6).enumerate() {
+            let rp = runner::write_replay(&replay_dir, &id, seed, tier, cand, &cand.schedule, false, gi);
+            if confirm(&rp) {
+                pick = ci;
+                break;
+            }
+        }
+        let f = &fs[pick];
         // does the violating world reproduce on its own (fresh process)?
         let raw_path = runner::write_replay(&replay_dir, &id, seed, tier, f, &f.schedule, false, gi);
         let (min_sched, tries, path) = if confirm(&raw_path) {
